@@ -137,7 +137,7 @@ class SelectResults(object):
     def __getitem__(self, value):
         if isinstance(value, slice):
             assert not value.step, "Slices do not support steps"
-            if not value.start and not value.stop:
+            if not value.start and value.stop is None:
                 # No need to copy, I'm immutable
                 return self
 
@@ -147,39 +147,34 @@ class SelectResults(object):
             if (value.start and value.start < 0) \
                or (value.stop and value.stop < 0):
                 if value.start:
-                    if value.stop:
+                    if value.stop is not None:
                         return list(self)[value.start:value.stop]
                     return list(self)[value.start:]
                 return list(self)[:value.stop]
 
-            if value.start:
-                assert value.start >= 0
-                start = self.ops.get('start', 0) + value.start
-                if value.stop is not None:
-                    assert value.stop >= 0
-                    if value.stop < value.start:
-                        # an empty result:
-                        end = start
-                    else:
-                        end = value.stop + self.ops.get('start', 0)
-                        if self.ops.get('end', None) is not None and \
-                                self.ops['end'] < end:
-                            # truncated by previous slice:
-                            end = self.ops['end']
-                else:
-                    end = self.ops.get('end', None)
+            prev_start = self.ops.get('start', 0)
+            prev_end = self.ops.get('end', None)
+            start = prev_start + (value.start or 0)
+            if value.stop is None:
+                end = prev_end
             else:
-                start = self.ops.get('start', 0)
-                end = value.stop + start
-                if self.ops.get('end', None) is not None \
-                   and self.ops['end'] < end:
-                    end = self.ops['end']
+                end = prev_start + value.stop
+                if prev_end is not None and prev_end < end:
+                    # truncated by previous slice:
+                    end = prev_end
+            if end is not None and end < start:
+                # an empty result:
+                start = end
             return self.clone(start=start, end=end)
         else:
             if value < 0:
                 return list(iter(self))[value]
             else:
                 start = self.ops.get('start', 0) + value
+                end = self.ops.get('end', None)
+                if end is not None and start >= end:
+                    # past the end of an earlier slice
+                    raise IndexError("list index out of range")
                 return list(self.clone(start=start, end=start + 1))[0]
 
     def __iter__(self):
